@@ -48,11 +48,16 @@ pub struct McClient {
 impl McClient {
     pub async fn connect(server: SocketAddr, bind_ip: Option<IpAddr>) -> std::io::Result<Self> {
         let sock = if server.is_ipv4() { TcpSocket::new_v4()? } else { TcpSocket::new_v6()? };
+        // the checks open tens of thousands of short connections: local ports in TIME_WAIT must be reusable,
+        // and closing aborts the connection (no TIME_WAIT on either side) so that later checks find free ports
+        sock.set_reuseaddr(true)?;
         if let Some(ip) = bind_ip {
             sock.bind(SocketAddr::new(ip, 0))?;
         }
         let stream = sock.connect(server).await?;
         stream.set_nodelay(true)?;
+        #[allow(deprecated)]
+        stream.set_linger(Some(Duration::ZERO))?;
         let local = stream.local_addr()?;
         Ok(Self { stream, enc: None, dec: None, rbuf: vec![], phase: Phase::Handshake, local, received: 0 })
     }
@@ -351,6 +356,8 @@ pub struct NetAdapters {
     pub gate: Option<Arc<Semaphore>>,
     pub never_discover: bool,
     pub target: SocketAddr,
+    /// clients with these effective IPs wait in the filter stage forever (a backend that is slow for them only)
+    pub blocked_ips: Vec<IpAddr>,
 }
 
 impl std::fmt::Debug for NetAdapters {
@@ -361,7 +368,7 @@ impl std::fmt::Debug for NetAdapters {
 
 impl NetAdapters {
     pub fn new() -> Self {
-        Self { log: Arc::new(Mutex::new(NetLog::default())), gate: None, never_discover: false, target: "10.9.8.7:25570".parse().unwrap() }
+        Self { log: Arc::new(Mutex::new(NetLog::default())), gate: None, never_discover: false, target: "10.9.8.7:25570".parse().unwrap(), blocked_ips: vec![] }
     }
 }
 
@@ -396,6 +403,9 @@ impl DiscoveryAdapter for NetAdapters {
 impl FilterAdapter for NetAdapters {
     async fn filter(&self, client_addr: &SocketAddr, _s: (&str, u16), _p: Protocol, _u: (&str, &Uuid), targets: Vec<Target>) -> passage_adapters::Result<Vec<Target>> {
         self.log.lock().unwrap().filter_clients.push(*client_addr);
+        if self.blocked_ips.contains(&client_addr.ip()) {
+            std::future::pending::<()>().await;
+        }
         Ok(targets)
     }
 }
@@ -473,8 +483,11 @@ pub async fn start_listener(cfg: &ListenerCfg, adapters: NetAdapters) -> Running
                 break; // could not bind: try another port
             }
             let sock = TcpSocket::new_v4().expect("socket");
+            let _ = sock.set_reuseaddr(true);
             sock.bind("127.0.0.99:0".parse().unwrap()).expect("bind probe");
             if let Ok(s) = sock.connect(addr).await {
+                #[allow(deprecated)]
+                let _ = s.set_linger(Some(Duration::ZERO));
                 drop(s);
                 up = true;
                 break;
